@@ -7,7 +7,10 @@ GO_TEST = "TestVerifC04"
 RUN_MODULE = "Run_C04"
 COQ_TARGETS = ["Corr/Run_C04.vo", "Proofs/ValueSearchProofs.vo"]
 N = {"quick": 1500, "thorough": 20000}
-RULE = ("random cases: client standard / accelerated (fullrt) / dual; operation SearchValue / GetValue / GetPublicKey; 2-12 responders "
+RULE = ("a fixed plan of 84 tie scenarios first (two or more byte-different valid values of EQUAL rank -- same sequence number, different "
+        "Select-neutral tag; for GetPublicKey the same key in two encodings -- from the local store and from responders, alone / after an "
+        "improvement / alternating / next to dropped records / with a quorum, on each client and operation, in canonical and reverse delivery "
+        "order); then random cases (75% with tags, 50% with only two sequence numbers so that ties are frequent): client standard / accelerated (fullrt) / dual; operation SearchValue / GetValue / GetPublicKey; 2-12 responders "
         "(WAN or LAN for dual) answering valid-new / valid-old / stale (outside the validator's clock-dependent validity window) / invalid / "
         "Select-error / mis-keyed / nil value / no record / error; local store none / valid / stale-by-validator / corrupt; quorum "
         "default,0,1,2,3,K; the delivery order of the answers chosen by the driver (gated message sender under testing/synctest).  "
@@ -22,7 +25,10 @@ TRUSTED = [
 ASSUMPTIONS = [
     "accepted values are non-nil (remote nil values are dropped by the code; stored values were validated when stored)",
     "context cancellation by the caller is not modelled (it yields a prefix of the modelled stream)",
-    "final_best / dual_merge assume Select is a total preorder on valid values (shown for the sequence-number validator)",
+    "final_best / dual_merge assume Select is a total preorder on valid values (shown for the sequence-number validator); the rank theorems "
+    "(9, 9a-9e) assume Select agrees with a rank on valid values and returns the FIRST of the best-ranked entries (go-libp2p-record convention)",
+    "fixup_targets (who receives the corrective put; 9c/9d say the sender of a tied value does) is modelled and proved about, not compared "
+    "with the implementation: the property is about the values yielded, the harness does not observe PUT_VALUE recipients",
 ]
 GO_TIMEOUT = {"quick": 900, "thorough": 3000}
 
@@ -34,7 +40,9 @@ TECHNIQUE = ("Coq proof (fold invariants over all arrival lists for processValue
              "check) + differential correspondence driving the real clients' SearchValue/GetValue/GetPublicKey with scripted responders")
 LEVEL_TEXT = ("Theorems in coq/Props/C04.v hold for every validator, every assignment of records to responders and local storage, every "
               "delivery order and every quorum: values streamed by the standard client are valid for the requested key and come from a "
-              "correctly keyed record; streams are strictly improving; under a total-preorder Select the final value is at least as good as "
+              "correctly keyed record; streams are strictly improving (under a rank-induced, first-of-equals Select: strictly increasing in rank against every earlier value, "
+              "so a value that TIES with the best is never streamed, does not replace it, is counted for the quorum and its sender is not put in "
+              "peersWithBest; the final value's rank is maximal among everything consumed); under a total-preorder Select the final value is at least as good as "
               "every value consumed before the search ended; nothing valid supplied gives not-found and a mis-keyed record is an RPC error; "
               "GetPublicKey only returns keys hashing to the peer; the accelerated client's stream equals the standard client's; the dual merge "
               "of any interleaving is improving and ends at the best; dual.GetValue returns one of the two halves' results, the WAN's when "
